@@ -36,7 +36,7 @@ def as_ast(p_var: Any) -> ast.expr:
     """
     # If we are dealing with a string, we have to special case this.
     if isinstance(p_var, str):
-        p_var = f"'{p_var}'"
+        p_var = repr(p_var)
     a = ast.parse(str(p_var))
 
     # Life out the thing inside the expression.
